@@ -625,8 +625,9 @@ func plansC16(thorough bool) []TPlan {
 		return q
 	}
 	offs := []int{1, 50}
+	offs2 := offs // the two-trigger plan on short chains also has expiry = registration + 2
 	if thorough {
-		offs = []int{1, 2, 50}
+		offs2 = []int{1, 2, 50}
 	}
 	plans := []TPlan{
 		// linear chains, every partition, range sizes 2, 3 and "unlimited" (the reference keyper has 1)
@@ -634,7 +635,7 @@ func plansC16(thorough bool) []TPlan {
 			D: 2, MaxR: 2, Start0: 1, MaxBeh: d(200, 5000)},
 		{Name: "lin-r3", MaxBlocks: d(5, 6), MaxNum: d(4, 5), MaxLeaves: 1, MaxEntries: d(3, 4), MaxPerBlock: 2, NTrig: d(1, 2), ExpOffsets: offs,
 			D: 2, MaxR: 3, Start0: 1, MaxBeh: d(200, 5000)},
-		{Name: "lin-2trig", MaxBlocks: d(4, 5), MaxNum: d(3, 4), MaxLeaves: 1, MaxEntries: d(3, 4), MaxPerBlock: 2, NTrig: 2, ExpOffsets: offs,
+		{Name: "lin-2trig", MaxBlocks: d(4, 5), MaxNum: d(3, 4), MaxLeaves: 1, MaxEntries: d(3, 4), MaxPerBlock: 2, NTrig: 2, ExpOffsets: offs2,
 			D: 2, MaxR: 10, Start0: 1, MaxBeh: d(200, 5000)},
 		// forks: registrations and logs on both sides, rollback of registrations and fired rows.
 		// Depth 1 makes a rollback stop right below an abandoned block with few blocks.
@@ -643,7 +644,7 @@ func plansC16(thorough bool) []TPlan {
 	}
 	if thorough {
 		// rollback deeper than the fork: fired rows of common blocks are deleted and fired again
-		plans = append(plans, TPlan{Name: "fork-d2", MaxBlocks: 6, MaxNum: 4, MaxLeaves: 2, MaxEntries: 3, MaxPerBlock: 2, NTrig: 1, ExpOffsets: []int{1, 50},
+		plans = append(plans, TPlan{Name: "fork-d2", MaxBlocks: 6, MaxNum: 4, MaxLeaves: 2, MaxEntries: 3, MaxPerBlock: 1, NTrig: 1, ExpOffsets: []int{1, 50},
 			D: 2, MaxR: 3, Start0: 1, MaxBeh: 6000})
 	}
 	return plans
